@@ -173,6 +173,14 @@ func validPayload(rng *rand.Rand, pt int) []byte {
 
 func payloadFor(rng *rand.Rand, c *kase) []byte {
 	p := validPayload(rng, c.Sv)
+	if c.Sv == int(pingext.ClientInfo) && (c.St == "capsnobase" || c.St == "capsempty") {
+		caps := []uint16{65535, 7, 4711}
+		if c.St == "capsempty" {
+			caps = []uint16{}
+		}
+		b, _ := pingext.NewClientInfoAndCapabilitiesPayload(filler(rng, 32), caps).MarshalSSZ()
+		return b
+	}
 	switch c.Pl {
 	case "valid":
 		return p
@@ -412,6 +420,32 @@ func (x *runner) contentFor(rng *rand.Rand, c *kase, fill int, vec *vector) []by
 			if v := int(binary.LittleEndian.Uint32(out[q:])); v >= o && v <= len(valid) {
 				binary.LittleEndian.PutUint32(out[q:], uint32(o))
 			}
+		}
+		return out
+	case "relayout":
+		// the outer container as a run of offsets (true for block bodies; other types get one more malformed shape)
+		if len(valid) < 8 {
+			return valid
+		}
+		o1 := int(binary.LittleEndian.Uint32(valid))
+		if o1 < 4 || o1%4 != 0 || o1 > len(valid) || o1 > 64 {
+			return valid
+		}
+		last := int(binary.LittleEndian.Uint32(valid[o1-4:]))
+		if last == len(valid) && o1 >= 12 && fill%2 == 1 {
+			// drop the empty last field
+			out := append([]byte{}, valid[:o1-4]...)
+			out = append(out, valid[o1:]...)
+			for q := 0; q+4 <= o1-4; q += 4 {
+				binary.LittleEndian.PutUint32(out[q:], binary.LittleEndian.Uint32(out[q:])-4)
+			}
+			return out
+		}
+		out := append([]byte{}, valid[:o1]...)
+		out = append(out, u32le(len(valid)+4)...)
+		out = append(out, valid[o1:]...)
+		for q := 0; q+4 <= o1; q += 4 {
+			binary.LittleEndian.PutUint32(out[q:], binary.LittleEndian.Uint32(out[q:])+4)
 		}
 		return out
 	case "otherblk":
